@@ -165,7 +165,7 @@ func H06c_history() {
 		}
 	}
 	vrtAssert("C06.history_no_strangers", len(subs) <= 4)
-	vrtObserve("hist", len(subs), qoss)
+	vrtObserve("hist", len(subs)) // (the order of the list depends on map iteration: not observed)
 	vrtReach("C06.history")
 }
 
@@ -279,5 +279,5 @@ func H06c_prune() {
 		vrtAssert("C06.history_qos", qoss[0] == specMinQos(p, q1))
 		vrtReach("C06.survivor_matched")
 	}
-	vrtObserve("prune", len(subs), qoss)
+	vrtObserve("prune", len(subs))
 }
